@@ -298,6 +298,7 @@ type harness struct {
 	out         *vh.Out
 	rng         *vh.Rng
 	crng        *vh.Rng // concurrent rounds: which rounds, schedule seeds
+	forceConc   bool    // every failure-free round of the scenario is concurrent
 	seed        uint64
 	tier        string
 	tmp         string
@@ -1094,7 +1095,11 @@ func (h *harness) concMode() string {
 	if h.crng == nil {
 		h.crng = vh.NewRng(h.seed*2654435761 + 97)
 	}
-	switch r := h.crng.Intn(12); {
+	r := h.crng.Intn(12)
+	if h.forceConc && r < 5 {
+		r += 5
+	}
+	switch {
 	case r < 5:
 		return ""
 	case r < 10:
@@ -1697,6 +1702,7 @@ func (h *harness) runAll(extra map[string]any, only int) {
 		synth            []int
 		maxFaults, kills int
 		maxIdx           int
+		conc             bool
 	}
 	var plans []plan
 	if h.tier == "quick" {
@@ -1704,6 +1710,10 @@ func (h *harness) runAll(extra map[string]any, only int) {
 		for _, tr := range transitions {
 			plans = append(plans, plan{tr: tr, users: 3, cols: 2, pts: 9, maxFaults: 5, kills: 1, maxIdx: 2})
 		}
+		// several senders with shard files of more than one chunk: their chunks arrive interleaved at the
+		// common owner when all nodes synchronise at once
+		const MiB = 1 << 20
+		plans = append(plans, plan{tr: transitions[1], users: 1, cols: 1, pts: 3, synth: []int{8*MiB + pageSize, 8*MiB + 1, 8*MiB + pageSize, 16*MiB + pageSize, 8*MiB + 2*pageSize}, maxFaults: 1, kills: 0, maxIdx: 2, conc: true})
 	} else {
 		for _, tr := range transitions {
 			plans = append(plans, plan{tr: tr, users: 4, cols: 2, pts: 14, maxFaults: 14, kills: 3, maxIdx: 2})
@@ -1714,6 +1724,9 @@ func (h *harness) runAll(extra map[string]any, only int) {
 		plans = append(plans, plan{tr: transitions[5], users: 1, cols: 1, pts: 3, synth: []int{16 * MiB, 16*MiB + pageSize, 8*MiB + 1}, maxFaults: 1000, kills: 2, maxIdx: 3})
 		// a real bbolt shard larger than one chunk
 		plans = append(plans, plan{tr: transitions[2], users: 1, cols: 1, pts: 4, bigPad: 3 * MiB, maxFaults: 1000, kills: 1, maxIdx: 3})
+		// several senders with multi-chunk shard files, all nodes synchronising at once
+		plans = append(plans, plan{tr: transitions[1], users: 2, cols: 1, pts: 3, synth: []int{8*MiB + pageSize, 8*MiB + 1, 16 * MiB, 16*MiB + pageSize, 8*MiB + 2*pageSize, 24*MiB + 1, 8 * MiB, 9 * MiB}, maxFaults: 6, kills: 1, maxIdx: 3, conc: true})
+		plans = append(plans, plan{tr: transitions[6], users: 2, cols: 1, pts: 3, synth: []int{8*MiB + pageSize, 16*MiB + 1, 16 * MiB, 9 * MiB, 8*MiB + 1, 10 * MiB}, maxFaults: 4, kills: 1, maxIdx: 3, conc: true})
 	}
 	for sc, p := range plans {
 		if only >= 0 && sc != only {
@@ -1722,6 +1735,7 @@ func (h *harness) runAll(extra map[string]any, only int) {
 		}
 		h.rng = vh.NewRng(h.seed*7919 + uint64(sc)*104729 + 1)
 		h.crng = vh.NewRng(h.seed*2654435761 + uint64(sc)*40503 + 97)
+		h.forceConc = p.conc
 		uuid.SetRand(&seededReader{r: vh.NewRng(h.seed*15485863 + uint64(sc)*32452843 + 5)})
 		b, err := h.buildBase(sc, p.tr, p.users, p.cols, p.pts, p.bigPad, p.synth)
 		if err != nil {
@@ -1819,6 +1833,7 @@ func (h *harness) runAll(extra map[string]any, only int) {
 		sc := 100 + i
 		h.rng = vh.NewRng(h.seed*7919 + uint64(sc)*104729 + 1)
 		h.crng = vh.NewRng(h.seed*2654435761 + uint64(sc)*40503 + 97)
+		h.forceConc = false
 		uuid.SetRand(&seededReader{r: vh.NewRng(h.seed*15485863 + uint64(sc)*32452843 + 5)})
 		h.runHistory(sc, p.kind, p.first, p.users, p.cols, p.pts, p.steps)
 	}
